@@ -6,11 +6,13 @@
     Refuted: kmpDeduplicate is NOT total, even on rings with >= 3 vertices, first <> last and no
     two equal neighbours (what cleanupNewRing passes to it): [C06_kmp_total_refuted] — a 33-vertex
     ring on three pixel centres makes RemoveSequences slice [20:19] (reproduced on the Go code).
+    Sufficient conditions for totality: no step back ([C06_kmp_total_no_step_back]); at most two
+    visits per point ([C06_kmp_total_le2]).
     Bounded: no failure on any chain of the enumerated domains ([C06_kmp_total_4_upto_9], ...).
     A reported [kmpSearch] position need not be an occurrence ([C06_kmpSearch_unsound_refuted]). *)
 From Coq Require Import ZArith List Bool Sorted.
 From Texel Require Import Prelude.Base Index.Model Snap.Model
-  Snap.ProofsKmpSearch Snap.ProofsKmpSubseq Snap.ProofsKmpTotal Snap.ProofsKmpEnum.
+  Snap.ProofsKmpSearch Snap.ProofsKmpSubseq Snap.ProofsKmpTotal Snap.ProofsKmpEnum Snap.ProofsKmpLe2.
 Import ListNotations.
 Open Scope Z_scope.
 
@@ -60,6 +62,12 @@ Print Assumptions C06_kmp_no_hang.
 Theorem C06_kmp_total_no_step_back : forall r, no_step_back r -> kmpDeduplicate r = Ok r.
 Proof. exact kmp_id_no_step_back. Qed.
 Print Assumptions C06_kmp_total_no_step_back.
+
+(** a second sufficient condition, the class of C18: no point occurs at three positions of the ring
+    ([le2]; decidable form [le2b r = true]) — then kmpDeduplicate returns *)
+Theorem C06_kmp_total_le2 : forall r, le2 r -> exists r', kmpDeduplicate r = Ok r'.
+Proof. exact kmp_total_le2. Qed.
+Print Assumptions C06_kmp_total_le2.
 
 (** RemoveSequences succeeds exactly on ordered, in-range ranges *)
 Theorem C06_removeSequences_ok_iff : forall s m,
